@@ -374,6 +374,8 @@ def ob_update(name, G, mode):
                 avg1 = num(net.average_effective_resistance())
                 dia1 = num(net.diameter_effective_resistance())
                 ad1 = [num(x) for x in net.admittive_degree()]
+                lc1 = [num(x) for x in net.local_admittive_clustering()]          # queried before the change (memoisation, if any, is filled)
+                gc1 = num(net.global_admittive_clustering())
                 # the change
                 state.cur = cd2
                 if mode == "inplace":
@@ -395,6 +397,16 @@ def ob_update(name, G, mode):
                 avg2 = num(net.average_effective_resistance())
                 ad2 = [num(x) for x in net.admittive_degree()]
                 C2 = cond_matrix(n, cd2)
+                lc2 = [num(x) for x in net.local_admittive_clustering()]
+                gc2 = num(net.global_admittive_clustering())
+                deg_ = [sum(G[i]) for i in range(n)]
+                ads2 = [sx.total(C2[i][j] for j in range(n)) for i in range(n)]
+                bad_lc = []
+                for i in range(n):
+                    tri = sx.total(mul(mul(C2[i][j], C2[i][k]), C2[j][k]) for j in range(n) for k in range(n))
+                    bad_lc.append(ne(lc2[i], 0) if deg_[i] == 1 else ne(mul(lc2[i], mul(ads2[i], deg_[i] - 1)), tri))
+                out.append(("local_admittive_clustering after update_resistances is not the defining sum over the new admittances", bad_lc))
+                out.append(("global_admittive_clustering after update_resistances is not the mean of the new local values", [ne(mul(gc2, n), sx.total(lc2))]))
                 out.append(("effective_resistance after update_resistances is not that of the new resistances",
                             [ne(ER2[a][b], spec2(a, b)) for a in range(n) for b in range(a)]))
                 out.append(("diameter_effective_resistance after update_resistances is not the maximum over the new effective resistances",
@@ -595,6 +607,9 @@ def replay(w):
         net, R1 = _net(G, w["c1"])
         net.average_effective_resistance()
         net.diameter_effective_resistance()
+        net.local_admittive_clustering()
+        net.global_admittive_clustering()
+        net.admittive_degree()
         _, R2 = _net(G, w["c2"])
         if w.get("inplace"):
             net.resistances[...] = R2
@@ -603,10 +618,17 @@ def replay(w):
             net.update_resistances(R2)
         ER, C, X = _ref_er(R2)
         n = len(G)
+        A_ = np.array(G)
+        deg_ = A_.sum(axis=1)
+        ad_ = C.sum(axis=1)
+        tri_ = np.einsum("ij,ik,jk->i", C, C, C)
+        lc_ = np.where(deg_ == 1, 0.0, tri_ / (ad_ * np.where(deg_ == 1, 1, deg_ - 1)))
         got = {"diameter": net.diameter_effective_resistance(), "average": net.average_effective_resistance(),
-               "er01": net.effective_resistance(0, 1)}
-        ref = {"diameter": ER.max(), "average": ER.sum() / (n * (n - 1)), "er01": ER[0, 1]}
-        bad = {q: (got[q], ref[q]) for q in got if not np.isclose(got[q], ref[q], **tol)}
+               "er01": net.effective_resistance(0, 1), "admittive_degree": net.admittive_degree(),
+               "local_admittive_clustering": net.local_admittive_clustering(), "global_admittive_clustering": net.global_admittive_clustering()}
+        ref = {"diameter": ER.max(), "average": ER.sum() / (n * (n - 1)), "er01": ER[0, 1], "admittive_degree": ad_,
+               "local_admittive_clustering": lc_, "global_admittive_clustering": lc_.mean()}
+        bad = {q: (got[q], ref[q]) for q in got if not np.allclose(got[q], ref[q], **tol)}
         return bool(bad), (f"resistances {R1.tolist()} -> update_resistances({R2.tolist()}): " +
                            "; ".join(f"{q} = {a!r}, reference on the new resistances {b!r}" for q, (a, b) in bad.items()))
     if k == "laws":
